@@ -207,9 +207,8 @@ Init == l = 1 /\ box = NoBox /\ cnt = [p \in Preds |-> 0]
 
 Step ==
     /\ l <= Len(Trace)
-    /\ LET ln == Trace[l]
-           j == Judge(ln)
-       IN /\ IF j.bad = {} THEN TRUE ELSE PrintT(ToJson([l |-> l, bad |-> j.bad]))
+    /\ \E ln \in {Trace[l]} : \E j \in {Judge(ln)} :       \* (bound once: TLC re-evaluates LET definitions on every use)
+          /\ IF j.bad = {} THEN TRUE ELSE PrintT(ToJson([l |-> l, bad |-> j.bad]))
           /\ box' = CASE ln.k \in {"boxnew", "boxenc"} -> Observed(ln)
                       [] ln.k = "reset" -> NoBox
                       [] OTHER -> box
